@@ -29,13 +29,13 @@ fn scenarios_for(prop: &str, tier: Tier) -> Vec<Box<dyn Scenario>> {
         }
         "C02" => {
             let mut v: Vec<Box<dyn Scenario>> = vec![
-                Box::new(CallsScenario { minors: [20, 20, 14, 20], depth: tier.pick(12, 18) }),
-                Box::new(CallsScenario { minors: [14, 16, 20, 14], depth: tier.pick(12, 18) }),
-                Box::new(CallsScenario { minors: [16, 19, 15, 20], depth: tier.pick(11, 16) }),
+                Box::new(CallsScenario { minors: [20, 20, 14, 20], depth: tier.pick(12, 24), max_calls: tier.pick(3, 4), serials: tier.pick(vec![0, 1], vec![0, 1, 2]) }),
+                Box::new(CallsScenario { minors: [14, 16, 20, 14], depth: tier.pick(12, 24), max_calls: tier.pick(3, 4), serials: vec![0, 1] }),
+                Box::new(CallsScenario { minors: [16, 19, 15, 20], depth: tier.pick(11, 20), max_calls: 3, serials: tier.pick(vec![0, 1], vec![0, 1, 2]) }),
             ];
             if tier == Tier::Thorough {
-                v.push(Box::new(CallsScenario { minors: [19, 18, 20, 16], depth: 14 }));
-                v.push(Box::new(CallsScenario { minors: [15, 20, 19, 18], depth: 14 }));
+                v.push(Box::new(CallsScenario { minors: [19, 18, 20, 16], depth: 14, max_calls: 3, serials: vec![0, 1] }));
+                v.push(Box::new(CallsScenario { minors: [15, 20, 19, 18], depth: 14, max_calls: 3, serials: vec![0, 1] }));
             }
             v
         }
